@@ -1022,30 +1022,128 @@ func inlineMembership(use ssa.Instruction, v ssa.Value, elemOK, listOK func(ssa.
 	return sawTrue
 }
 
+// indexMembership: on edge br of iff an index variable is known to be a real index (`idx >= 0`, `idx != -1`,
+// `idx > -1`) and every way it can be one passed an equality between an element satisfying elemOK and
+// an element of a list satisfying listOK: the "index of the match or -1" form of a membership test.
+func indexMembership(iff *ssa.If, br int, elemOK, listOK func(ssa.Value) bool) bool {
+	r, ok := edgeRel(iff, br)
+	if !ok {
+		return false
+	}
+	k, isC := constInt(r.Y)
+	if !isC || !((r.Op == token.GEQ && k == 0) || (r.Op == token.GTR && k == -1) || (r.Op == token.NEQ && k == -1)) {
+		return false
+	}
+	held := func(x ssa.Value) []ssa.Value {
+		out := []ssa.Value{x}
+		if al, ok := x.(*ssa.Alloc); ok {
+			for _, rr := range *al.Referrers() {
+				if st, ok := rr.(*ssa.Store); ok && st.Addr == ssa.Value(al) {
+					out = append(out, st.Val)
+				}
+			}
+		}
+		return out
+	}
+	isElem := func(x ssa.Value) bool {
+		for _, v := range held(x) {
+			if elemOK(v) {
+				return true
+			}
+		}
+		return false
+	}
+	fromList := func(x ssa.Value) bool {
+		for _, v := range held(x) {
+			for _, rt := range rootsAll(v) {
+				if ia, ok := rt.(*ssa.IndexAddr); ok && listOK(ia.X) {
+					return true
+				}
+			}
+		}
+		return false
+	}
+	eq := equalEdge(func(a, b ssa.Value) bool {
+		return (isElem(a) && fromList(b)) || (isElem(b) && fromList(a))
+	}, true)
+	sawIdx := false
+	good := true
+	seen := map[ssa.Value]bool{}
+	var walk func(v ssa.Value, at ssa.Instruction, depth int)
+	walk = func(v ssa.Value, at ssa.Instruction, depth int) {
+		v = stripConv(v)
+		if kk, isK := constInt(v); isK {
+			if kk >= 0 {
+				good = false
+			}
+			return
+		}
+		if phi, isPhi := v.(*ssa.Phi); isPhi && depth < 6 && loopBody(phi.Block()) == nil {
+			if seen[phi] {
+				return
+			}
+			seen[phi] = true
+			for i, e := range phi.Edges {
+				p := phi.Block().Preds[i]
+				walk(e, p.Instrs[len(p.Instrs)-1], depth+1)
+			}
+			return
+		}
+		sawIdx = true
+		if at == nil {
+			good = false
+			return
+		}
+		if pass, _ := mustPass(at, eq); !pass {
+			good = false
+		}
+	}
+	walk(r.X, nil, 0)
+	return good && sawIdx
+}
+
 // isRangeIndex: v is the index of a `for i := range s` / `for i, x := range s` loop as go/ssa builds it
 // (`i = phi[-1, i] + 1`), or a counted loop variable starting at a non-negative constant and only
 // incremented: never negative.
 func isRangeIndex(v ssa.Value) bool {
+	// `for i := range s`: i = phi + 1 with phi = [-1 on entry, i on every back edge]
 	if b, ok := v.(*ssa.BinOp); ok && b.Op == token.ADD {
 		if k, isC := constInt(b.Y); isC && k == 1 {
-			if phi, ok := b.X.(*ssa.Phi); ok && len(phi.Edges) == 2 {
-				for i, e := range phi.Edges {
-					if k0, isC := constInt(e); isC && k0 == -1 && phi.Edges[1-i] == ssa.Value(b) {
-						return true
+			if phi, ok := b.X.(*ssa.Phi); ok && len(phi.Edges) >= 2 {
+				entries, backs := 0, 0
+				for _, e := range phi.Edges {
+					if k0, isC := constInt(e); isC && k0 == -1 {
+						entries++
+					} else if e == ssa.Value(b) {
+						backs++
+					} else {
+						entries = -100
 					}
+				}
+				if entries == 1 && backs >= 1 {
+					return true
 				}
 			}
 		}
 	}
-	if phi, ok := v.(*ssa.Phi); ok && len(phi.Edges) == 2 {
-		for i, e := range phi.Edges {
+	// `for i := k; …; i += c` (k >= 0, c > 0): phi = [k on entry, phi + c on every back edge]
+	if phi, ok := v.(*ssa.Phi); ok && len(phi.Edges) >= 2 {
+		entries, backs := 0, 0
+		for _, e := range phi.Edges {
 			if k0, isC := constInt(e); isC && k0 >= 0 {
-				if inc, ok := phi.Edges[1-i].(*ssa.BinOp); ok && inc.Op == token.ADD && inc.X == ssa.Value(phi) {
-					if k1, isC := constInt(inc.Y); isC && k1 > 0 {
-						return true
-					}
+				entries++
+				continue
+			}
+			if inc, ok := e.(*ssa.BinOp); ok && inc.Op == token.ADD && inc.X == ssa.Value(phi) {
+				if k1, isC := constInt(inc.Y); isC && k1 > 0 {
+					backs++
+					continue
 				}
 			}
+			entries = -100
+		}
+		if entries == 1 && backs >= 1 {
+			return true
 		}
 	}
 	return false
